@@ -41,9 +41,20 @@ def gen_ops(fam, rng, helper, nops, meta=None):
         if d:
             kws.append(f"dialect={d}")
         val, tree = F.gen_value(fam, i, rng)
+        # everything a first (stub) call has to forward: flags, encoder kwargs, encoder/decoder, dialect, context
         pkws = list(kws)
         if c.get("onf") and rng.random() < 0.5:
             pkws.append("omit_none=True")
+        wire_pack = f"{val}.{pk}({', '.join(pkws)})"
+        if c.get("baf") and rng.random() < 0.5:
+            pkws.append("by_alias=True")
+        if c.get("ctx") and rng.random() < 0.5:
+            pkws.append("context={'k': %d}" % rng.randint(0, 9))
+        if fmt == "orjson" and rng.random() < 0.5:
+            pkws.append("orjson_options=" + rng.choice(["orjson.OPT_SORT_KEYS | orjson.OPT_INDENT_2", "orjson.OPT_INDENT_2",
+                                                        "orjson.OPT_APPEND_NEWLINE"]))
+        if fmt != "dict" and rng.random() < 0.25:
+            pkws.append("encoder=enc_mark")
         pack = f"{val}.{pk}({', '.join(pkws)})"
         r = rng.random()
         if r < 0.5:
@@ -51,8 +62,13 @@ def gen_ops(fam, rng, helper, nops, meta=None):
             if meta is not None:
                 meta.append({"cls": i, "fmt": fmt, "pack": True, "dialect": d, "tree": tree, "valid": True})
             continue
+        ukws = list(kws)
         try:
-            wire = eval(pack, helper.__dict__)
+            if fmt != "dict" and rng.random() < 0.3:
+                wire = repr(eval(f"{val}.to_dict({', '.join(kws)})", helper.__dict__))
+                ukws.append("decoder=dec_lit")
+            else:
+                wire = eval(wire_pack, helper.__dict__)
         except BaseException:
             continue
         if r > 0.93 and isinstance(wire, dict) and wire:
@@ -61,16 +77,16 @@ def gen_ops(fam, rng, helper, nops, meta=None):
             valid = False
         else:
             valid = True
-        ops.append(f"{c['name']}.{up}({wire!r}{', ' + ', '.join(kws) if kws else ''})")
+        ops.append(f"{c['name']}.{up}({wire!r}{', ' + ', '.join(ukws) if ukws else ''})")
         if meta is not None:
             meta.append({"cls": i, "fmt": fmt, "pack": False, "dialect": d, "tree": tree, "valid": valid})
     return ops
 
 
-def gen_case(rng, nops=6, max_classes=5):
+def gen_case(rng, nops=6, max_classes=5, focus=None):
     """a family, a compilation mode and an op history; None when the family cannot even be created eagerly
     (e.g. mutually recursive plain dataclasses: outside the property's families)"""
-    fam = F.gen_family(rng, max_classes)
+    fam = F.gen_family(rng, max_classes, focus)
     n = len(fam["classes"])
     topo = F.topo_order(fam)
     twin_src = F.render(fam, topo, [False] * n)
@@ -162,7 +178,15 @@ def run_history(case, upto=None, collect=None):
     """run the ops of a case on a fresh family under test; yields (index, op, got, exp, signature|None).
     Stops at the first difference (the state after a failure is not a state the property talks about)."""
     fam = case["fam"]
-    mod = F.load(case["src"], "m")
+    try:
+        mod = F.load(case["src"], "m")
+    except BaseException as e:
+        # the twin (other definition order / eager) could be created, this family cannot: the class statements
+        # themselves depend on order / mode
+        got = F.canon_exc(e)
+        gaux = {"rec": F.recursion_kind(e)} if got[1] == "RecursionError" else {}
+        sig = classify(fam, "<class creation>", got, ["OK", "created"], gaux, {}, {}, {}, case["src"])
+        return [(0, "<class creation>", got, ["OK", "created"], sig)]
     res = []
     try:
         if collect is not None:
@@ -193,9 +217,9 @@ def short(x, n=400):
     return s if len(s) <= n else s[:n] + "..."
 
 
-def oracle_histories(ctx: vlib.Ctx, n: int, keep_cases=None):
+def oracle_histories(ctx: vlib.Ctx, n: int, keep_cases=None, focus=None):
     for _ in range(n):
-        case = gen_case(ctx.rng, nops=ctx.rng.randint(3, 8))
+        case = gen_case(ctx.rng, nops=ctx.rng.randint(3, 8), focus=focus)
         if "skip" in case:
             ctx.hist("families", case["skip"])
             continue
@@ -207,7 +231,10 @@ def oracle_histories(ctx: vlib.Ctx, n: int, keep_cases=None):
             feats.add(c["kind"])
             feats.update("mixin:" + m for m in c["mixins"])
             if c["generic"]:
-                feats.add("generic")
+                feats.add("generic" + str(c["generic"]))
+            for o in ("onf", "baf", "ctx"):
+                if c.get(o):
+                    feats.add("flag:" + o)
             if c["dsup"]:
                 feats.add("dialect-support")
             if c["parent"] is not None:
@@ -217,6 +244,10 @@ def oracle_histories(ctx: vlib.Ctx, n: int, keep_cases=None):
                     feats.add("self-ref" if t[1] == i else ("forward-ref" if t[1] > i else "nested"))
                     if t[3]:
                         feats.add("specialisation")
+                        if any(a.startswith("aux") for a in t[3]):
+                            feats.add("targ:same-named-classes")
+                        if "listint" in t[3]:
+                            feats.add("targ:nested")
         for f in feats:
             ctx.hist("features", f)
         snaps = []
@@ -228,6 +259,8 @@ def oracle_histories(ctx: vlib.Ctx, n: int, keep_cases=None):
         for k, op, got, exp, sig in res:
             m = re.search(r"\.(to|from)_(\w+)\(", op)
             ctx.hist("ops", (m.group(1) + "_" + m.group(2)) if m else "?")
+            for kw in re.findall(r"(omit_none|by_alias|context|orjson_options|encoder|decoder|dialect)=", op[op.rfind(")."):] if ")." in op else op):
+                ctx.hist("call kwargs", kw + ("@first-call" if k == 0 else ""))
             ctx.hist("outcome", exp[0] if exp[0] == "OK" else "EXC:" + exp[1])
             ctx.count((case["mode"], tuple(sorted(feats)), m.group(0) if m else op[:10], "dialect=" in op, k == 0))
             if sig is not None:
@@ -355,7 +388,10 @@ def oracle_threads(ctx: vlib.Ctx, nfam: int, reps: int):
             ops, exps = [], []
             for op in case["ops"][:2]:
                 exp = fresh_expected(case["twin_src"], op)
-                m = F.load(case["src"], "s")
+                try:
+                    m = F.load(case["src"], "s")
+                except BaseException:
+                    break
                 try:
                     got = F.run_op(m, op)
                 finally:
@@ -403,8 +439,14 @@ def run(ctx: vlib.Ctx):
         from harness.props import c14_coq
         c14_coq.theorems(ctx)
         cases = []
-        oracle_histories(ctx, ctx.budget(220, 2500), keep_cases=cases)
-        c14_coq.correspondence(ctx, cases)
+        oracle_histories(ctx, ctx.budget(150, 1800), keep_cases=cases)
+        oracle_histories(ctx, ctx.budget(50, 500), keep_cases=cases, focus="spec")
+        oracle_histories(ctx, ctx.budget(50, 500), keep_cases=cases, focus="kwargs")
+        tie_ok = c14_coq.correspondence(ctx, cases)
+        if not tie_ok or ctx.unshown:
+            # a broken obligation / tie: search harder where the disagreement lives
+            oracle_histories(ctx, ctx.budget(150, 600), focus="spec")
+            oracle_histories(ctx, ctx.budget(100, 400), focus="kwargs")
         oracle_scenarios(ctx)
         oracle_threads(ctx, ctx.budget(25, 200), ctx.budget(6, 12))
     finally:
